@@ -705,9 +705,100 @@ def _filter_ops(ast):
     return {ast[0]}
 
 
+# --------------------------------------------------------------------- C20
+
+
+def check_C20(c):
+    out = []
+    dep = c.by["deprecated"]
+    if not dep:
+        return out
+    t0 = dep[0][5]["tree"]
+    olddirs = {int(x): d for x, d in dep[0][5]["olddirs"].items()}
+
+    def rel(d):
+        p = d.rstrip("/").split("/")
+        return "%s/%s" % (p[-2], p[-1])
+
+    orig = {}   # x -> digest of its result file when the classes were deprecated
+    for x, d in olddirs.items():
+        dg = t0["results"].get(rel(d))
+        if dg is not None:
+            orig[x] = dg
+    snaps = [(ev[0], ev[4], ev[5]["tree"]) for ev in c.events if ev[4] in ("fix-return", "fix-killed")]
+    # (the final tree is not compared: the resubmission may legitimately rewrite results)
+    for seq, kind, tree in snaps:
+        real = {dg for r, dg in tree["results"].items() if r in tree["dirs"]}
+        lost = sorted(x for x, dg in orig.items() if dg not in real)
+        if lost:
+            out.append(V("C20", "job-data-lost", {"after": kind},
+                         "result files of jobs %s are in no job folder any more at seq %d (%s)" % (lost, seq, kind)))
+    for ev in c.by["fix-return"]:
+        if ev[5].get("exc"):
+            out.append(V("C20", "fix-exception", {"exc": ev[5]["exc"].split(":")[0], "tb": (ev[5].get("tb") or ["?"])[-1]},
+                         "fix_deprecated(fix=%s, cleanup=%s) raised %s (%s)" % (ev[5]["op"]["fix"], ev[5]["op"]["cleanup"], ev[5]["exc"], ev[5].get("tb"))))
+    # after the last completed repair every former job is reachable under its new identifier
+    completed = [ev for ev in c.by["fix-return"] if ev[5]["op"]["fix"] and not ev[5].get("exc")]
+    newdirs = {int(x): d for x, d in (c.final.get("jobdir_variant") or {}).get("new", {}).items()}
+    if completed and newdirs:
+        tree = completed[-1][5]["tree"]
+        for x, dg in sorted(orig.items()):
+            nd = newdirs.get(x)
+            if nd is None:
+                continue
+            if tree["results"].get(rel(nd)) != dg:
+                out.append(V("C20", "old-result-unreachable", {"cleanup": bool(completed[-1][5]["op"]["cleanup"]), "kind": c.tasks[x].get("kind")},
+                             "after the repair, job x=%d (%s) is not reachable at %s (found result %s, expected %s)"
+                             % (x, c.tasks[x].get("kind"), rel(nd), tree["results"].get(rel(nd)), dg)))
+    # resubmission finds the existing results
+    for i, pr in c.final["procs"].items():
+        if pr["kind"] != "sched":
+            continue
+        spec = c.scn["procs"][int(i)] if int(i) < len(c.scn["procs"]) else {}
+        if spec.get("variant") != "new" or pr["hung"] or pr["pid"] in c.crashed:
+            if spec.get("variant") == "new" and pr["hung"]:
+                out.append(V("C20", "resubmission-hang", {}, "the resubmitting experiment hangs"))
+            continue
+        if not completed:
+            continue
+        for x in sorted(orig):
+            j = pr["jobs"].get(str(x))
+            if j is None:
+                continue
+            if j["result"] != "DONE":
+                out.append(V("C20", "resubmitted-job-not-done", {"result": str(j["result"])[:30]}, "x=%d: %s after the repair" % (x, j["result"])))
+            if any(ev[2] == pr["pid"] and ev[5]["x"] == x for ev in c.by["spawn"]):
+                out.append(V("C20", "repaired-job-relaunched", {"kind": c.tasks[x].get("kind")},
+                             "x=%d (%s) was launched again although its result existed under the former identifier" % (x, c.tasks[x].get("kind"))))
+        for ev in c.by["xp-exit"]:
+            if ev[2] == pr["pid"] and ev[5].get("exc") not in (None, "FailedExperiment"):
+                out.append(V("C20", "resubmission-exception", {"exc": ev[5]["exc"]}, "resubmission raised %s: %s %s" % (ev[5]["exc"], ev[5].get("msg"), ev[5].get("tb"))))
+    return out
+
+
+# --------------------------------------------------------------------- C14
+
+
+def check_C14(c):
+    out = []
+    for ev in c.by["mutate"]:
+        p = ev[5]
+        if p["raised"] is None:
+            out.append(V("C14", "mutation-accepted", {"kind": p["kind"], "node": p["node"].split(":")[0], "cls": p["cls"]},
+                         "after submit of x=%d, %s on %s (%s) was accepted" % (p["x"], p["kind"], p["node"], p["cls"])))
+        if not p["ident_same"] or not p["path_same"]:
+            out.append(V("C14", "identity-changed", {"kind": p["kind"], "node": p["node"].split(":")[0]},
+                         "identifier/job path of x=%d changed after %s on %s" % (p["x"], p["kind"], p["node"])))
+    for ev in c.by["params-check"]:
+        if not ev[5]["equal"]:
+            out.append(V("C14", "executed-differs-from-identified", {"error": ev[5].get("error")},
+                         "params.json given to the process of x=%d differs from the configuration identified at submit: %s" % (ev[5]["x"], ev[5].get("diff") or ev[5].get("error"))))
+    return out
+
+
 ORACLES = {
     "C04": check_C04, "C05": check_C05, "C06": check_C06, "C07": check_C07,
-    "C08": check_C08, "C09": check_C09, "C11": check_C11, "C16": check_C16, "C19": check_C19,
+    "C08": check_C08, "C09": check_C09, "C11": check_C11, "C16": check_C16, "C19": check_C19, "C20": check_C20, "C14": check_C14,
 }
 
 
